@@ -15,6 +15,7 @@ open OutlineModel OutlineModel.Metrics OutlineModel.IPInfo OutlineModel.Util Out
 def parseDB (s : String) : Option DB :=
   if s == "disabled" then some .disabled
   else if s == "fails" then some (.fails "")
+  else if s.startsWith "fails:" then some (.fails (s.drop 6).toString)
   else if s.startsWith "answers:" then some (.answers (s.drop 8).toString)
   else none
 
